@@ -130,6 +130,8 @@ pub struct Ctx {
     pub violations: Vec<Violation>,
     pub strict: bool,
     counting: bool,
+    /// (k, K) when this process is shard k of K of a thorough run
+    pub shard: Option<(u64, u64)>,
 }
 
 impl Ctx {
@@ -154,7 +156,13 @@ impl Ctx {
             violations: vec![],
             strict: false,
             counting: true,
+            shard: std::env::var("VERIF_SHARD").ok().and_then(|k| k.parse().ok()).zip(std::env::var("VERIF_SHARDS").ok().and_then(|k| k.parse().ok())),
         }
+    }
+
+    /// deterministic (swept / enumerated) stages run on the first shard only
+    pub fn first_shard(&self) -> bool {
+        self.shard.map_or(true, |(k, _)| k == 0)
     }
 
     pub fn set_counting(&mut self, on: bool) {
@@ -285,7 +293,18 @@ impl Ctx {
         });
         let dir = root().join("evidence");
         let _ = std::fs::create_dir_all(&dir);
-        let path = dir.join(format!("{}.json", self.id));
+        let path = match self.shard {
+            Some((k, _)) => {
+                // distinct keys go to a side file so that the parent can count the union
+                let mut keys: Vec<u8> = Vec::with_capacity(self.distinct.len() * 8);
+                for h in &self.distinct {
+                    keys.extend_from_slice(&h.to_le_bytes());
+                }
+                let _ = std::fs::write(dir.join(format!("{}.shard{k}.keys", self.id)), keys);
+                dir.join(format!("{}.shard{k}.json", self.id))
+            }
+            None => dir.join(format!("{}.json", self.id)),
+        };
         if let Err(e) = std::fs::write(&path, serde_json::to_string_pretty(&ev).unwrap()) {
             eprintln!("cannot write evidence {}: {e}", path.display());
             return 2;
@@ -324,10 +343,14 @@ where
     S::Value: std::fmt::Debug,
     F: Fn(&mut Ctx, &S::Value) -> Result<(), String>,
 {
+    let (cases, shard_mix) = match ctx.shard {
+        Some((k, n)) => (cases.div_ceil(n as u32).max(1), k.wrapping_mul(0xD1B54A32D192ED03)),
+        None => (cases, 0),
+    };
     let config = Config {
         cases,
         failure_persistence: None,
-        rng_seed: RngSeed::Fixed(ctx.seed.wrapping_mul(0x9E3779B97F4A7C15).wrapping_add(salt)),
+        rng_seed: RngSeed::Fixed(ctx.seed.wrapping_mul(0x9E3779B97F4A7C15).wrapping_add(salt) ^ shard_mix),
         max_shrink_iters: 20_000,
         max_global_rejects: 1 << 20,
         ..Config::default()
@@ -368,4 +391,135 @@ pub fn nth_value<S: Strategy>(seed: u64, strategy: &S) -> S::Value {
 /// map a u16 index monotonically into 0..len
 pub fn idx(i: u16, len: usize) -> usize {
     ((i as usize) * len) >> 16
+}
+
+
+/// Parent side of a sharded thorough run: spawn K copies of this binary as shards, merge their evidence.
+pub fn run_sharded(id: &'static str, seed: u64, shards: u64) -> i32 {
+    let exe = std::env::current_exe().expect("current_exe");
+    let t0 = Instant::now();
+    let dir = root().join("evidence");
+    let _ = std::fs::create_dir_all(&dir);
+    let mut children = vec![];
+    for k in 0..shards {
+        let _ = std::fs::remove_file(dir.join(format!("{id}.shard{k}.json")));
+        let c = std::process::Command::new(&exe).args([id, "thorough"]).env("VERIF_SHARD", k.to_string()).env("VERIF_SHARDS", shards.to_string()).env("VERIF_TIER", "thorough").stdout(std::process::Stdio::piped()).spawn();
+        match c {
+            Ok(c) => children.push((k, c)),
+            Err(e) => {
+                eprintln!("cannot spawn shard {k}: {e}");
+                return 2;
+            }
+        }
+    }
+    let mut rc = 0;
+    let mut known_lines: Vec<String> = vec![];
+    for (k, c) in children {
+        let out = match c.wait_with_output() {
+            Ok(o) => o,
+            Err(e) => {
+                eprintln!("shard {k}: {e}");
+                return 2;
+            }
+        };
+        let code = out.status.code().unwrap_or(2);
+        for line in String::from_utf8_lossy(&out.stdout).lines() {
+            if line.starts_with("KNOWN-FINDING:") {
+                if !known_lines.iter().any(|l| l.split(" (hits").next() == line.split(" (hits").next()) {
+                    known_lines.push(line.to_string());
+                }
+            } else if line.starts_with("VIOLATION") || line.starts_with("  ") {
+                println!("{line}");
+            }
+        }
+        if code == 1 {
+            rc = 1;
+        } else if code != 0 && rc == 0 {
+            rc = 2;
+        }
+    }
+    // merge
+    let mut merged: Option<Value> = None;
+    let mut keys: HashSet<u64> = HashSet::new();
+    let mut evaluations = 0u64;
+    let mut violations = 0u64;
+    let mut classes: BTreeMap<String, u64> = BTreeMap::new();
+    let mut known: BTreeMap<String, u64> = BTreeMap::new();
+    let mut samples: Vec<Value> = vec![];
+    let mut numeric: BTreeMap<String, u64> = BTreeMap::new();
+    let mut details: Vec<Value> = vec![];
+    for k in 0..shards {
+        let Ok(text) = std::fs::read_to_string(dir.join(format!("{id}.shard{k}.json"))) else { continue };
+        let Ok(v) = serde_json::from_str::<Value>(&text) else { continue };
+        let cov = &v["coverage"];
+        evaluations += cov["evaluations"].as_u64().unwrap_or(0);
+        violations += v["violations"].as_u64().unwrap_or(0);
+        if let Some(d) = v["violation_details"].as_array() {
+            details.extend(d.iter().cloned());
+        }
+        if let Some(c) = cov["classes"].as_object() {
+            for (n, x) in c {
+                *classes.entry(n.clone()).or_insert(0) += x.as_u64().unwrap_or(0);
+            }
+        }
+        if let Some(c) = cov["known_hits"].as_object() {
+            for (n, x) in c {
+                *known.entry(n.clone()).or_insert(0) += x.as_u64().unwrap_or(0);
+            }
+        }
+        if let Some(a) = cov["samples"].as_array() {
+            for x in a.iter().take(if k == 0 { 24 } else { 2 }) {
+                if samples.len() < 40 {
+                    samples.push(x.clone());
+                }
+            }
+        }
+        if let Some(o) = cov.as_object() {
+            for (n, x) in o {
+                if !["evaluations", "distinct_nontrivial", "classes", "known_hits", "samples", "rule", "exhaustive"].contains(&n.as_str()) {
+                    if let Some(u) = x.as_u64() {
+                        *numeric.entry(n.clone()).or_insert(0) += u;
+                    }
+                }
+            }
+        }
+        if let Ok(b) = std::fs::read(dir.join(format!("{id}.shard{k}.keys"))) {
+            for ch in b.chunks_exact(8) {
+                keys.insert(u64::from_le_bytes(ch.try_into().unwrap()));
+            }
+        }
+        if merged.is_none() {
+            merged = Some(v);
+        }
+        let _ = std::fs::remove_file(dir.join(format!("{id}.shard{k}.json")));
+        let _ = std::fs::remove_file(dir.join(format!("{id}.shard{k}.keys")));
+    }
+    let Some(mut ev) = merged else {
+        eprintln!("no shard produced evidence");
+        return 2;
+    };
+    {
+        let cov = ev["coverage"].as_object_mut().unwrap();
+        cov.insert("evaluations".into(), json!(evaluations));
+        cov.insert("distinct_nontrivial".into(), json!(keys.len()));
+        cov.insert("classes".into(), json!(classes));
+        cov.insert("known_hits".into(), json!(known));
+        cov.insert("samples".into(), Value::Array(samples));
+        for (n, x) in numeric {
+            cov.insert(n, json!(x));
+        }
+        cov.insert("shards".into(), json!(shards));
+    }
+    ev["violations"] = json!(violations);
+    ev["violation_details"] = Value::Array(details);
+    ev["wall_s"] = json!((t0.elapsed().as_secs_f64() * 1000.0).round() / 1000.0);
+    ev["seed"] = json!(seed);
+    if std::fs::write(dir.join(format!("{id}.json")), serde_json::to_string_pretty(&ev).unwrap()).is_err() {
+        return 2;
+    }
+    for l in known_lines {
+        println!("{}", l.split(" (hits").next().unwrap_or(&l));
+    }
+    println!("{id} thorough seed={seed} shards={shards} evaluations={evaluations} distinct_nontrivial={} violations={violations} wall={:.1}s", keys.len(), t0.elapsed().as_secs_f64());
+    rc
 }
